@@ -78,12 +78,16 @@ def n_numtype(rng, v):
 def n_sig(rng, v):
     if type(v) is float and v == v and abs(v) != float('inf'):
         return v + rng.choice([1e-5, -1e-5, 2e-6])
+    if type(v) is complex and v == v and abs(v) != float('inf'):
+        return complex(v.real + rng.choice([1e-5, -1e-5, 0.0]), v.imag + rng.choice([1e-5, -1e-5, 2e-6]))
     return None
 
 
 def n_eps(rng, v):
     if type(v) is float and v == v and abs(v) != float('inf'):
         return v + rng.choice([0.004, -0.004, 0.001])
+    if type(v) is complex and v == v and abs(v) != float('inf'):
+        return complex(v.real + rng.choice([0.002, -0.002, 0.0]), v.imag + rng.choice([0.002, -0.002, 0.001]))
     return None
 
 
@@ -138,7 +142,7 @@ NORMALISERS = {
 }
 NONASCII = ['é', 'Ünï', 'naïve café', '日本']
 import decimal as _decimal
-ODD_NUMS = [float('inf'), float('-inf'), 1 - 2j, -1.5 + 0.25j, _decimal.Decimal('Infinity'), _decimal.Decimal('2.50')]
+ODD_NUMS = [float('inf'), float('-inf'), 1 - 2j, -1.5 + 0.25j, 2j, 3 + 0j, -4.5j, _decimal.Decimal('Infinity'), _decimal.Decimal('2.50')]
 NANS = [float('nan'), _decimal.Decimal('NaN')]          # a nan differs from itself in the plain diff: only where a non-empty plain diff is allowed
 ODD_DATES = [datetime.date(2024, 5, 1), datetime.date(2020, 2, 29), datetime.timedelta(days=1, seconds=5), datetime.timedelta(0), datetime.time(12, 30, 15), datetime.time(1, 2, 3, 400)]
 
@@ -319,6 +323,30 @@ def run(ctx, impl_only=False):
                 ctx.violate(case, 'the plain diff is empty but the diff under %s is not: %s' % ('+'.join(combo), str(d)[:120]))
             if plain:
                 ctx.nontriv(('pair', repr(a), repr(b), combo))
+    # ---- every kind of leaf at a dictionary value, a tuple item and a nested position, against a copy and against a numeric twin of another type,
+    #      under each option and each pair of numeric options: nothing may raise that the plain diff accepts, a copy stays empty
+    odd = ODD_NUMS + NANS + ODD_DATES + NONASCII + DT + [_decimal.Decimal('-Infinity'), _decimal.Decimal('0.001'), 10 ** 20, b'caf\xc3\xa9', Color.GREEN]
+    twins = {_decimal.Decimal('2.50'): 2.5, _decimal.Decimal('0.001'): 0.001, 3 + 0j: 3, 2.5: _decimal.Decimal('2.5')}
+    for x in odd:
+        for y in [copy.deepcopy(x)] + ([twins[x]] if x in twins else []):
+            a = {'k': x, 'l': (x, 1), 'm': {'n': [x]}}
+            b = {'k': y, 'l': (y, 1), 'm': {'n': [y]}}
+            plain, e0 = safe_diff(a, b)
+            if e0 is not None:
+                ctx.count('plain_raises'); continue
+            for combo in [(o,) for o in opt_names] + [('math_epsilon', 'ignore_numeric_type_changes'), ('significant_digits', 'ignore_numeric_type_changes'),
+                                                      ('math_epsilon', 'significant_digits'), ('truncate_datetime', 'default_timezone')]:
+                kw = {}
+                for nme in combo:
+                    kw.update(OPTIONS[nme])
+                case = {'clause': 'monotone/total', 'options': list(combo), 'x': repr(a), 'y': repr(b), 'zip': False}
+                ctx.evaluations += 1
+                d, e = safe_diff(a, b, **kw)
+                ctx.count('odd_leaf_cases')
+                if e is not None:
+                    ctx.violate(case, 'options %s make DeepDiff raise %s (%s) on inputs it accepts without them' % ('+'.join(combo), type(e).__name__, str(e)[:60]))
+                elif not plain and d:
+                    ctx.violate(case, 'the plain diff is empty but the diff under %s is not: %s' % ('+'.join(combo), str(d)[:120]))
     # ---- correspondence with the option-aware Lean model (values of the PyVal universe)
     if not impl_only:
         model_correspondence(ctx)
